@@ -155,6 +155,8 @@ class Kernel(object):
         self.external = {}          # pid -> KProc not children of the daemon (unrelated processes)
         self.spawn_cost = 0.001
         self.spawn_errors = {}       # spawn attempt index -> exception instance to raise (unexpected failure)
+        self.kill_errors = set()     # indices (0-based count of kill() calls) that fail with EPERM
+        self.kill_count = 0
         self.kill_latency = 0.0005    # a SIGKILLed process needs a moment to become a zombie (never instantaneous on a real kernel)
 
     # ------------------------------------------------------------------ time / injections
@@ -266,6 +268,10 @@ class Kernel(object):
 
     def kill(self, pid, sig, via='os.kill'):
         self.tick('kill')
+        n = self.kill_count
+        self.kill_count += 1
+        if n in self.kill_errors:
+            raise PermissionError(errno.EPERM, 'Operation not permitted (injected)')
         p = self.lookup(pid)
         sig = int(sig)
         if p is None or p.state == 'gone':
@@ -425,6 +431,8 @@ class FakePopen(object):
             self._k.kill(self.pid, sig, via='send_signal')
         except ProcessLookupError:
             raise _psutil.NoSuchProcess(self.pid)
+        except PermissionError:
+            raise _psutil.AccessDenied(self.pid)
 
     def terminate(self):
         self.send_signal(_signal.SIGTERM)
